@@ -13,8 +13,11 @@ import traceback
 from . import vsym
 
 ROOT = os.path.dirname(os.path.dirname(os.path.abspath(__file__)))
-EVID = os.path.join(ROOT, "evidence")
-REPLAYS = os.path.join(ROOT, "replays")
+# VERIF_SCRATCH redirects evidence and replays (used by tools/seed_regress.sh so that runs against a mutated
+# scratch copy of the repository never overwrite the registered evidence)
+_SCR = os.environ.get("VERIF_SCRATCH")
+EVID = os.path.join(_SCR or ROOT, "evidence")
+REPLAYS = os.path.join(_SCR or ROOT, "replays")
 KNOWN = os.path.join(ROOT, "known_findings.json")
 
 
@@ -293,14 +296,16 @@ def run_check(pid, tier, harnesses, level="model_checking", assumptions=(), expl
                 json.dumps(v["inputs"], default=str)[:400]))
     if code == 0 and (unconfirmed or mismatches or errors or cov["inconclusive"]):
         code = 2
-    for u in unconfirmed[:10]:
+    for u in unconfirmed[:4]:
         print("UNCONFIRMED (exit 2) %s/%s: %s inputs=%s concrete=%s" % (
             u["harness"], u["label"], json.dumps(u["detail"], default=str)[:300],
             json.dumps(u["inputs"], default=str)[:300], json.dumps(u["concrete"], default=str)[:300]))
-    for m in mismatches[:10]:
+    for m in mismatches[:4]:
         print("WITNESS-MISMATCH (exit 2) %s: %s" % (m["harness"], json.dumps(m["failure"], default=str)[:500]))
-    for e in errors[:10]:
-        print("HARNESS-ERROR (exit 2) %s" % json.dumps(e, default=str)[:1500])
+    for e in errors[:3]:
+        print("HARNESS-ERROR (exit 2) %s" % json.dumps(e, default=str)[:1200])
+    if len(errors) > 3:
+        print("... %d more harness errors (see evidence)" % (len(errors) - 3))
     if cov["inconclusive"]:
         print("INCONCLUSIVE: %d solver-unknown paths" % cov["inconclusive"])
     ev["violations"] = len(violations)
